@@ -65,6 +65,11 @@ pub struct Case {
     pub factory_delay: Vec<u8>,
     pub initial: Vec<SvcState>,
     pub ops: Vec<Op>,
+    /// what a call does to its service's readiness, per service: 0 = nothing, 1 = the service is
+    /// pending afterwards (it takes one connection at a time; `MakeReady` frees it), 2 = its next
+    /// readiness check fails (the service is re-created)
+    #[serde(default)]
+    pub after_call: Vec<u8>,
 }
 
 #[derive(Clone, Copy, Debug, PartialEq, Eq)]
@@ -109,6 +114,7 @@ struct World {
     /// factory of service s is held back
     hold: RefCell<Vec<bool>>,
     hold_wakers: RefCell<Vec<Vec<Waker>>>,
+    after_call: RefCell<Vec<u8>>,
 }
 
 thread_local! {
@@ -200,6 +206,11 @@ impl Service<TcpStream> for ScriptedSvc {
             self.w.conns.borrow_mut()[id].called += 1;
         }
         self.w.log.borrow_mut().push(Ev::Call { token: self.token, inst: self.inst, conn: id });
+        match self.w.after_call.borrow()[self.token] {
+            1 => self.w.state.borrow_mut()[self.token] = SvcState::Pending,
+            2 => self.w.fail_next.borrow_mut()[self.token] = true,
+            _ => {}
+        }
         ConnFut { id, w: self.w.clone(), _stream: stream, completed: false }
     }
 }
@@ -579,6 +590,7 @@ async fn run_async(c: &Case, prop: Prop) -> CaseResult {
         now_ms: Cell::new(0),
         hold: RefCell::new(vec![false; n]),
         hold_wakers: RefCell::new(vec![vec![]; n]),
+        after_call: RefCell::new((0..n).map(|i| c.after_call.get(i).copied().unwrap_or(0) % 3).collect()),
     });
     WORLD.with(|x| *x.borrow_mut() = Some(w.clone()));
     let _ = hv::take_dispatch_log();
@@ -826,6 +838,7 @@ async fn run_async(c: &Case, prop: Prop) -> CaseResult {
             }
         }
         // C07 (iii): everything ready -> every dispatched connection is called exactly once
+        w.after_call.borrow_mut().iter_mut().for_each(|a| *a = 0);
         for s in 0..n {
             w.state.borrow_mut()[s] = SvcState::Ready;
             let ws: Vec<Waker> = w.ready_wakers.borrow_mut()[s].drain(..).collect();
